@@ -36,12 +36,12 @@ CLAIMED = {
         "DESIGN.md section 4, C04",
         "Trusted: vcoll models std maps on the touched keys; stamps satisfy the type invariant; real-build constants (N=2, forgiveness 3600 s)."),
     "C05": _c(
-        _CB + ": Kani contract on check_self_then_insert_to (arbitrary unbounded set) == the `lacks` kernel; bounded contract for the diff list shape; Verus lemmas: applying the "
+        _CB + ": Kani contract on check_self_then_insert_to (arbitrary unbounded set) == the `lacks` kernel; bounded contract for the diff list shape; bounded contracts on the repair glue handle_removals / handle_modified sliced from poller.rs (recording actor mailbox and peer client); Verus lemmas: applying the "
         "difference leaves the second difference empty, one two-way exchange yields identical live ids and stamps",
         "Proof of the listing rule per item (sentence 1) for any set; Verus proof of the repair fixpoint and symmetry per key, lifted pointwise, under the stated acceptance "
         "(window) hypothesis. The shape of the two lists over a whole peer state is a bounded stand-in (thorough tier).",
         "DESIGN.md section 4, C05",
-        "Window hypothesis => acceptance is a lemma; that every stamp in play is inside one window is the property's own hypothesis. poller.rs glue (handle_removals/modified) is read, not verified."),
+        "Window hypothesis => acceptance is a lemma; that every stamp in play is inside one window is the property's own hypothesis. The repair glue is checked for lists <= 3 (one fetch chunk); the surrounding poller loop (get_keyspace_diff, begin_keyspace_sync spawning the two tasks) is read, not verified."),
     "C08": _c(
         _CB + ": Kani contracts on purge_old_deletes (bounded tombstone map), is_ts_before_last_observed_event, insert/delete (cut-off monotone, refusals change nothing) on the real "
         "orswot.rs; Verus lemmas: purged deletes stay refused under any later cut-off, purging is invisible to every later operation (simulation step)",
@@ -83,7 +83,7 @@ CLAIMED = {
         "Locks are exclusive cells; crate::hash injective on registered URIs; HTTP glue in net/server.rs read, not verified.", engine="kani"),
     "C03": _c(
         _CB + " (bounded for the code, proof for the algebra): Kani/CBMC contract on the verbatim OrSWotSet::merge (callee NodeVersions::merge linked by contract through #[kani::stub] and "
-        "checked separately) == the per-key merge kernel for replicas with <= 1 (quick) / <= 2 (thorough) keys per side and arbitrary cut-offs; Verus: that kernel under the window hypothesis is the "
+        "checked separately) == the per-key merge kernel for replicas with <= 1 key per side (possibly the same key) and arbitrary cut-offs; Verus: that kernel under the window hypothesis is the "
         "join of a semilattice (max under an injective rank), lifted pointwise and to arbitrary merge sequences",
         "Bounded contract checking of merge against its per-key kernel, plus an unbounded Verus proof that the kernel (no cut-off flag set) is idempotent, commutative, associative and absorbing, "
         "that folding any sequence of replica states depends only on the set folded in, and that replicas that merged each other agree on every lookup.",
@@ -117,8 +117,10 @@ CLAIMED = {
 }
 
 NOT_APPLICABLE = {
-    "C15": "DCAwareSelector::select_nodes / select_n_nodes (iterator adapters over &mut map entries, rand::choose_multiple, rotating cursors) were not brought under contract: functions of "
-           "comparable shape (watch_membership_changes, load_states_from_storage) already exceed CBMC's memory in this sandbox; defect D7 found by reading is described in DESIGN.md, not fixed",
+    "C15": "DCAwareSelector::select_nodes / select_n_nodes were sliced and put under a bounded contract (unit harness/selector, kept in the tree) but could not be decided: with every stand-in that "
+           "helped elsewhere (opaque addresses, borrowed-only names, fixed-capacity vectors) select_n_nodes on 2 data centres x 2 nodes yields 16-20 M SAT variables and CBMC runs out of memory at 24 GB, "
+           "the quorum levels need 3.7 M symbolic-execution steps (vectors of (&name, &mut cycler) pairs and of filtered iterators); Verus rejects the iterator adapters; defect D7 found by reading is "
+           "described in DESIGN.md sections 5 and 9.10, not fixed and not raised by any check",
     "C01": "whole-cluster convergence over all histories, delivery schedules and repair orders: a multi-process history property with no function boundary to carry a postcondition; its single-node ingredients are decided under C02/C04/C05/C07/C08",
     "C06": "spans issuer, transport and N remote nodes (eventual, cross-process); contracts decide only its local ingredients (selection count under C15, write-before-reply under C02)",
     "C14": "schedule/fault quantifier over hyper/h2/tokio/turmoil connection glue; Kani has no concurrency support and no function in /repo owns the behaviour",
